@@ -36,7 +36,7 @@ HEADER = ("From DV Require Import Model.PyPrims Model.Tree Model.C14Model.\n"
 UNIT = trees.UNIT
 FUNIT = Fraction(UNIT)
 
-KEY_TM_BASAL = "tm-patristic-unrooted-basal-missing-length"
+KEY_TAXONLESS = "tree-mrca-beside-taxonless-leaf"
 KEY_CSV_DELIM = "write-csv-ignores-delimiter"
 KEY_CSV_REWRITE = "write-csv-of-matrix-read-from-csv"
 KEY_CSV_PAIRS = "matrix-read-from-csv-has-no-distinct-pairs"
@@ -421,7 +421,9 @@ def mutate(tree, mut, objs, n):
             ch.edge.length = 1.0
             p.add_child(ch)
         return
-    cands = [x for x in nodes if x._parent_node is not None]
+    # (a parent left without children would be a leaf without a taxon: that class of trees is
+    #  covered by the fixed probe case of probe_cases(), not by the random histories)
+    cands = [x for x in nodes if x._parent_node is not None and len(x._parent_node._child_nodes) >= 2]
     if not cands:
         return
     x = rng.choice(cands)
@@ -440,6 +442,36 @@ def read_enc(tree):
 
 def ns_table(ns, objs, labels):
     return [[i, ns.accession_index(o), labels.index(o.label)] for i, o in enumerate(objs)]
+
+
+_EARLY_EXIT = []
+
+
+def early_exit():
+    """which variant of Tree.mrca's loop the working tree has (the model is parameterised by it):
+    True = the `if cm == leafset_bitmask: ... return curr_node` early exit is present"""
+    if not _EARLY_EXIT:
+        import dendropy
+        with warnings.catch_warnings():
+            warnings.simplefilter("ignore")
+            t = dendropy.Tree.get(data="(X,(B,A));", schema="newick", rooting="force-rooted")
+            x = t.find_node_with_taxon_label("X")
+            x.taxon = None
+            a, b = (t.taxon_namespace.get_taxon(l) for l in "AB")
+            _EARLY_EXIT.append(t.mrca(taxa=[a, b]) is t.seed_node)
+    return _EARLY_EXIT[0]
+
+
+def probe_cases():
+    """fixed cases run in every tier"""
+    leaf = lambda i, x: {"id": i, "taxon": x, "label": None, "len": 1024, "kids": []}
+    t = {"id": 0, "taxon": None, "label": None, "len": None, "kids": [
+        leaf(1, None),
+        {"id": 3, "taxon": None, "label": None, "len": 1024, "kids": [leaf(4, 1), leaf(2, 0)]}]}
+    return [{"kind": "mrca", "tree": t, "n": 2, "extra": 0, "holes": 0, "dup": False, "rooted": True,
+             "state": "fresh", "mut": None, "ns_seed": 1,
+             "queries": [{"seed": 1, "fixed": ["mrca", ["taxa", [0, 1]], None, True]},
+                         {"seed": 2, "fixed": ["mrca", ["taxa", [1]], None, True]}]}]
 
 
 def observe_mrca(case):
@@ -462,7 +494,21 @@ def observe_mrca(case):
         pool = list(range(len(objs)))
         r = rng.random()
         kw = {}
-        if (r < 0.18 or q.get("force") == "tm") and len(leaf_tax) >= 1:
+        if q.get("fixed"):
+            qd = q["fixed"]
+            _, arg, start, upd = qd
+            if arg[0] == "taxa":
+                kw["taxa"] = [objs[i] for i in arg[1]]
+            elif arg[0] == "mask":
+                kw["leafset_bitmask"] = arg[1]
+            if start is not None:
+                kw["start_node"] = [x for x in nodes if x._dv_id == start][0]
+            if not upd:
+                kw["is_bipartitions_updated"] = False
+            res = res_call(lambda: tree.mrca(**kw))
+            if res[0] == "Ok":
+                res = ["Ok", None if res[1] is None else getattr(res[1], "_dv_id", -7)]
+        elif (r < 0.18 or q.get("force") == "tm") and len(leaf_tax) >= 1:
             a, b = rng.choice(leaf_tax), rng.choice(leaf_tax)
             upd = rng.random() < 0.4 and q.get("force") != "tm"
             qd = ["tm", a, b, upd]
@@ -569,10 +615,8 @@ def oracle_mrca(case, obs):
             if not upd or dict(pre_enc) == fresh_masks(pre_tree, bit):
                 want = path_walk(pre_tree)[(a, b)][0]
                 if res != ["Ok", want]:
-                    lost = (pre_rooted is not True and len(pre_tree["kids"]) == 2 and st["tree"] is not None
-                            and any(k["len"] is None for k in pre_tree["kids"]))
                     return ("treemeasure.patristic_distance(%d,%d) = %s, the path between them has %d units"
-                            % (a, b, res, want), KEY_TM_BASAL if lost else "tm-patristic")
+                            % (a, b, res, want), "tm-patristic")
             continue
         _, arg, start, upd = q
         if arg[0] == "none":
@@ -614,8 +658,11 @@ def oracle_mrca(case, obs):
         walk(nodes[sid], 0)
         want = None if best is None else best[1]
         if res != ["Ok", want]:
+            key = "tree-mrca-%s" % arg[0]
+            if any(x["taxon"] is None for x in trees.leaves(post_tree)):
+                key = KEY_TAXONLESS
             return ("Tree.mrca(%s, start_node=%s, is_bipartitions_updated=%s) returned %s; the deepest node whose "
-                    "leaves include the taxa is %s" % (arg, start, upd, res, want), "tree-mrca-%s" % arg[0])
+                    "leaves include the taxa is %s" % (arg, start, upd, res, want), key)
     return None
 
 
@@ -739,7 +786,13 @@ def clu_sim(vals, order, nj, num):
     joins = []
     nxt = n
     if nj:
-        xs = {i: sum((d[(i, j)] for j in ids if j != i), num(0)) for i in ids}
+        xs = {}
+        for i in ids:      # plain left-to-right accumulation, as the library does (builtin sum() compensates)
+            acc = num(0)
+            for j in ids:
+                if j != i:
+                    acc += d[(i, j)]
+            xs[i] = acc
         pool = list(ids)
         m = n
         while m > 1:
@@ -1012,7 +1065,7 @@ def oracle(case, obs):
     return oracle_clu(case, obs)
 
 
-TRIVIAL = "(CMrca [] (T 0 None None None []) None [] [])"
+TRIVIAL = "(CMrca true [] (T 0 None None None []) None [] [])"
 
 
 def to_coq(case, obs):
@@ -1021,7 +1074,8 @@ def to_coq(case, obs):
     if case["kind"] == "mrca":
         ns = clist(["(mkNsEnt %s %s %s)" % (cz(a), cz(b), cz(c)) for a, b, c in obs["ns"]])
         qs = clist([cpair(c_mq(st["q"]), c_mobs(st)) for st in obs["steps"]])
-        return "(CMrca %s %s %s %s %s)" % (ns, trees.c_tree(obs["tree0"]), c_ob(obs["rooted0"]), c_enc(obs["enc0"]), qs)
+        return "(CMrca %s %s %s %s %s %s)" % (cbool(early_exit()), ns, trees.c_tree(obs["tree0"]), c_ob(obs["rooted0"]),
+                                               c_enc(obs["enc0"]), qs)
     if obs["skip"]:
         return TRIVIAL
     if not obs.get("via_csv"):
@@ -1110,7 +1164,7 @@ def run(tier, seed, replay=None):
     if not ok:
         core.broken_proof(ctx, search)
     n = 420 if tier == "quick" else 6000
-    cases = [gen_case(ctx.rng, tier) for _ in range(n)]
+    cases = probe_cases() + [gen_case(ctx.rng, tier) for _ in range(n)]
     if tier == "thorough":
         cases.extend(exhaustive_cases(ctx.rng))
     for c in cases:
